@@ -31,10 +31,12 @@ func processTableDepth(
 	incompleteTableDepthMap map[string]int,
 	visitedTableAttrs map[string]string,
 ) {
+	progressed := false
 	for tableName := range incompleteTableDepthMap {
 		processComplete, size, tempVisitedAttrs := findTableDepth(tableName, tableMap[tableName],
 			visitedTableAttrs, completeTableDepthMap)
 		if processComplete {
+			progressed = true
 			processedTablesSlice := completedTableDepthMap[size]
 			if processedTablesSlice == nil {
 				processedTablesSlice = nil
@@ -49,9 +51,51 @@ func processTableDepth(
 		}
 	}
 	if len(incompleteTableDepthMap) != 0 {
+		if !progressed {
+			// Every remaining table has a foreign key that no order can satisfy: it refers to the
+			// table itself, to a cycle of tables, or to a table or column that is not defined.
+			// Another pass would change nothing (and the recursion would never end), so these
+			// tables are placed, by name, after all the tables that could be ordered.
+			placeUnorderedTables(completedTableDepthMap, completeTableDepthMap, incompleteTableDepthMap)
+			return
+		}
 		processTableDepth(tableMap, completedTableDepthMap, completeTableDepthMap, incompleteTableDepthMap,
 			visitedTableAttrs)
 	}
+}
+
+func placeUnorderedTables(
+	completedTableDepthMap map[int][]string,
+	completeTableDepthMap map[string]int,
+	incompleteTableDepthMap map[string]int,
+) {
+	lastDepth := 0
+	for depth := range completedTableDepthMap {
+		if depth >= lastDepth {
+			lastDepth = depth + 1
+		}
+	}
+	tableNames := make([]string, 0, len(incompleteTableDepthMap))
+	for tableName := range incompleteTableDepthMap {
+		tableNames = append(tableNames, tableName)
+	}
+	sort.Strings(tableNames)
+	for _, tableName := range tableNames {
+		completedTableDepthMap[lastDepth] = append(completedTableDepthMap[lastDepth], tableName)
+		completeTableDepthMap[tableName] = lastDepth
+		delete(incompleteTableDepthMap, tableName)
+	}
+}
+
+// foreignKeyTarget returns the table and the column that a column of reference type points at.
+// ok is false when the reference does not have the form <table>.<column>, e.g. the name of a type
+// that is not defined (the parser keeps it as an application name and a one-element path).
+func foreignKeyTarget(attrType *sysl.Type) (table, column string, ok bool) {
+	path := attrType.GetTypeRef().GetRef().GetPath()
+	if len(path) < 2 {
+		return "", "", false
+	}
+	return path[0], path[1], true
 }
 
 func findTableDepth(
@@ -70,9 +114,10 @@ func findTableDepth(
 		}
 		for _, attrName := range attrNames {
 			attrType := relEntity.AttrDefs[attrName]
-			if typeRef := attrType.GetTypeRef(); typeRef != nil {
-				if val, ok := visitedTableAttrs[typeRef.GetRef().Path[0]+"."+typeRef.GetRef().Path[1]]; ok {
-					newDepth := completeTableDepthMap[typeRef.GetRef().Path[0]] + 1
+			if attrType.GetTypeRef() != nil {
+				refTable, refColumn, isForeignKey := foreignKeyTarget(attrType)
+				if val, ok := visitedTableAttrs[refTable+"."+refColumn]; isForeignKey && ok {
+					newDepth := completeTableDepthMap[refTable] + 1
 					tempVisitedAttrs[tableName+"."+attrName] = val
 					if newDepth > tableDepth {
 						tableDepth = newDepth
